@@ -231,7 +231,14 @@ def install():
     # regex: shim module + wrap the compiled patterns stored on the grammar classes
     # (every module: a change under test may start using ``re`` anywhere; patterns compiled at import time sit in
     # module globals or class attributes as real Pattern objects and are wrapped)
+    import math as _math
     for m, mod in mods.items():
+        # math predicates a change under test may apply to a decoded (symbolic) float
+        if getattr(mod, "math", None) is _math:
+            mod.math = cmodels.MathShim()
+        for nm, fn in (("isfinite", cmodels.sym_isfinite), ("isinf", cmodels.sym_isinf), ("isnan", cmodels.sym_isnan)):
+            if getattr(mod, nm, None) is getattr(_math, nm):
+                setattr(mod, nm, fn)
         if getattr(mod, "re", None) is _re:
             mod.re = rx.RE
         for k, v in list(vars(mod).items()):
